@@ -7,6 +7,7 @@ import Miden.Model.Exec
 import Miden.Model.Mast
 import Miden.Model.Options
 import Miden.Spec.Parse
+import Miden.Model.Air
 namespace Miden
 
 def joinNats (l : List Nat) : String := ",".intercalate (l.map toString)
@@ -168,6 +169,15 @@ def handle (line : String) : String :=
       | .error .undefined => "undefined"
       | .error (.fail (some e)) => s!"err {e.render}"
       | .error (.fail none) => "err *"
+  | ["air", opc, cur, nxt] =>
+    let mk (vals : List Nat) : Air.Row GF :=
+      let g (i : Nat) : GF := ⟨vals.getD i 0⟩
+      { clk := g 0, fmp := g 1, opcode := opc.toNat?.getD 0,
+        hlp := (List.range 6).map (fun i => g (2 + i)),
+        s := (List.range 16).map (fun i => g (8 + i)),
+        b0 := g 24, b1 := g 25, h0 := g 26 }
+    let cs := Air.stackConstraints (mk (parseNats cur)) (mk (parseNats nxt))
+    s!"cs {joinNats (cs.map (·.v))}"
   | ["options", m, e] =>
     match execOptionsNew (if m == "none" then none else m.toNat?) (e.toNat?.getD 0) with
     | some (mx, ex) => s!"ok max={mx} expected={ex}"
